@@ -1,6 +1,16 @@
 // Harness binary for C33 (directory lock).
 package main
 
-import "verifharness/internal/corr"
+import (
+	"os"
 
-func main() { corr.Main(map[string]corr.Family{"dirlock": runDirLock}) }
+	"verifharness/internal/corr"
+)
+
+func main() {
+	if len(os.Args) == 3 && os.Args[1] == "child" {
+		childMain(os.Args[2])
+		return
+	}
+	corr.Main(map[string]corr.Family{"dirlock": runDirLock})
+}
